@@ -26,9 +26,10 @@ pub mod h_wire;
 
 /// all harnesses reachable from this module (the child modules in opaque.rs / envelope.rs /
 /// tripledh.rs register theirs through `child_tables`)
-pub fn tables() -> [&'static [(&'static str, fn())]; 9] {
+pub fn tables() -> [&'static [(&'static str, fn())]; 10] {
     [
         h_lemmas::TABLE,
+        h_lemmas::TABLE2,
         h_wire::TABLE,
         h_steps::TABLE,
         h_inputs::TABLE,
